@@ -16,9 +16,8 @@ def runSend (P : Params) (o : Oracle) (s : State) (t : TxIn) (price : Int) : Han
   let coin := t.nat "d.Coin"; let to := t.hex "d.To"; let value := t.int "d.Value"
   if !coinExists s coin then reject 102 else
   withCom P o s t.gasCoin price fun com =>
-    let need := if t.gasCoin == coin then value + com.commission else com.commission
     if t.gasCoin != coin && balanceOf s t.sender coin < value then reject 107 else
-    if balanceOf s t.sender t.gasCoin < need then reject 107 else
+    if balanceOf s t.sender t.gasCoin < t.addIfGas coin com.commission value then reject 107 else
     ready t com [.transfer t.sender to coin value]
 
 def sumFor (items : List (Coin × Addr × Int)) (c : Coin) : Int :=
@@ -64,8 +63,7 @@ def runCreateCoin (P : Params) (o : Oracle) (s : State) (t : TxIn) (price : Int)
   if crr < 10 || crr > 100 then reject 202 else
   withCom P o s t.gasCoin price fun com =>
     if balanceOf s t.sender t.gasCoin < com.commission then reject 107 else
-    let total := if t.gasCoin == 0 then reserve + com.inBase else reserve
-    if balanceOf s t.sender 0 < total then reject 107 else
+    if balanceOf s t.sender 0 < t.addIfGas 0 reserve com.inBase then reject 107 else
     let id := nextCoinId s
     let ci : CoinInfo := { id := id, symbol := sym, version := 0, volume := amount, reserve := reserve, crr := crr, maxSupply := maxS, owner := some t.sender, mintable := false, burnable := false }
     ready t com [.createCoin t.sender ci] [("tx.coin_id", toString id)]
@@ -163,8 +161,7 @@ def runBurnToken (P : Params) (o : Oracle) (s : State) (t : TxIn) (price : Int) 
     if ci.volume - value < 1 then reject 206 else
     withCom P o s t.gasCoin price fun com =>
       if balanceOf s t.sender t.gasCoin < com.commission then reject 107 else
-      let need := if t.gasCoin == coin then value + com.commission else value
-      if balanceOf s t.sender coin < need then reject 107 else
+      if balanceOf s t.sender coin < t.addIfGas coin value com.commission then reject 107 else
       ready t com [.mint t.sender coin (-value)]
 
 /-! ### RedeemCheck (9)
